@@ -69,12 +69,35 @@ GTamper == \E kind \in One({k \in TamperKinds \ {"unaccepted"} :
               /\ Step([act |-> "Tamper", r |-> x[1], kind |-> kind, other |-> x[2], a |-> Owner, cs |-> <<>>,
                        res |-> TryAdd(x[1], Rep(x[1]), Tampered(x[1], kind, x[2], Owner, <<>>)).res,
                        applied |-> applied[x[1]]])
-GUnaccepted == \E r \in One({y \in Replicas : applied[y] = Len(log)}) : \E a \in One(All) :
-              \E cs \in One(BadCs(st[r], a)) :
-              Tamper(r, "unaccepted", 0, a, cs)
-              /\ Step([act |-> "Tamper", r |-> r, kind |-> "unaccepted", other |-> 0, a |-> a, cs |-> cs,
-                       res |-> TryAdd(r, Rep(r), Tampered(r, "unaccepted", 0, a, cs)).res,
+\* refused records for the state s: mostly the two-content ones (first content applies)
+BadPicks(s) ==
+    LET all == UNION {{<<a, cs>> : cs \in BadCs(s, a)} : a \in All}
+        two == {y \in all : Len(y[2]) = 2}
+    IN IF two # {} /\ RandomElement(1..4) # 1 THEN two ELSE all
+GUnaccepted == \E r \in One(Replicas) : \E y \in One(BadPicks(st[r])) :
+              Tamper(r, "unaccepted", 0, y[1], y[2])
+              /\ Step([act |-> "Tamper", r |-> r, kind |-> "unaccepted", other |-> 0, a |-> y[1], cs |-> y[2],
+                       res |-> TryAdd(r, Rep(r), Tampered(r, "unaccepted", 0, y[1], y[2])).res,
                        applied |-> applied[r]])
+
+\* a batch of accepted records (at least one new) with a refusable tail; half of the time the tail
+\* is the unaccepted multi-content record whose first content applies (when one exists), and the
+\* batch travels through one of the three callers of AddRawRecords
+Vias == {"direct", "headUpdate", "response"}
+BatchSlots == {<<r, i, j>> \in Replicas \X (1..MaxLog) \X (1..MaxLog) :
+                  i <= applied[r] + 1 /\ applied[r] + 1 <= j /\ j <= Len(log)}
+GTailUnaccepted ==
+    \E x \in One(BatchSlots) : \E y \in One(BadPicks(F(SubSeq(log, 1, x[3])))) : \E via \in One(Vias) :
+        AddBatchTail(x[1], x[2], x[3], "unaccepted", 0, y[1], y[2])
+        /\ Step([act |-> "AddBatchTail", r |-> x[1], i |-> x[2], j |-> x[3], kind |-> "unaccepted", other |-> 0,
+                 a |-> y[1], cs |-> y[2], via |-> via, applied |-> applied'[x[1]]])
+GTailOther ==
+    \E x \in One(BatchSlots) :
+    \E ko \in One({y \in (TailKinds \ {"unaccepted"}) \X (0..MaxLog) : TamperEnabledAt(x[1], x[3], y[1], y[2], Owner, <<>>)}) :
+    \E via \in One(Vias) :
+        AddBatchTail(x[1], x[2], x[3], ko[1], ko[2], Owner, <<>>)
+        /\ Step([act |-> "AddBatchTail", r |-> x[1], i |-> x[2], j |-> x[3], kind |-> ko[1], other |-> ko[2],
+                 a |-> Owner, cs |-> <<>>, via |-> via, applied |-> applied'[x[1]]])
 
 Finish == Len(hist) = MaxSteps /\ ~done /\ done' = TRUE /\ UNCHANGED <<vars, hist>>
 
@@ -86,6 +109,7 @@ GenNext ==
         \/ GRestart \/ GMigrated \/ GBootstrap
         \/ GCatchUp \/ GCatchUpHead \/ GAnnounce \/ GAnnounce
         \/ GTamper \/ GTamper \/ GUnaccepted
+        \/ GTailUnaccepted \/ GTailUnaccepted \/ GTailOther
   \/ Finish
 
 GenSpec == GenInit /\ [][GenNext]_gvars
